@@ -44,7 +44,8 @@ static struct { coap_tick_t at; unsigned seq; int copy; const sim_dgram_t *d; } 
 static int nfly;
 
 /* server application state */
-static struct { coap_tick_t due; uint8_t tok[8]; size_t tkl; int used; coap_async_t *async; coap_session_t *s; } pend[MAXPEND];
+static struct { coap_tick_t due; uint8_t tok[8]; size_t tkl; int used; coap_async_t *async; coap_session_t *s; unsigned long id; } pend[MAXPEND];
+static unsigned long pend_ids;
 static uint8_t answered[MAXPEND][8]; static size_t answered_l[MAXPEND]; static int nanswered;
 static int srv_mid_set;
 
@@ -127,7 +128,7 @@ static int find_pend(const uint8_t *t, size_t l) {
 }
 static int new_pend(coap_session_t *s, const uint8_t *t, size_t l, coap_tick_t due, coap_async_t *a) {
   for (int i = 0; i < MAXPEND; i++) if (!pend[i].used) {
-    pend[i].used = 1; pend[i].due = due; pend[i].tkl = l; memcpy(pend[i].tok, t, l); pend[i].async = a; pend[i].s = s;
+    pend[i].used = 1; pend[i].id = pend_ids++; pend[i].due = due; pend[i].tkl = l; memcpy(pend[i].tok, t, l); pend[i].async = a; pend[i].s = s;
     return i;
   }
   return -1;
@@ -167,7 +168,8 @@ static void hnd(coap_resource_t *r, coap_session_t *s, const coap_pdu_t *req, co
 static void srv_app_timers(void) {
   for (;;) {
     int best = -1;
-    for (int i = 0; i < MAXPEND; i++) if (pend[i].used && pend[i].due <= sim_now && (best < 0 || pend[i].due < pend[best].due)) best = i;
+    for (int i = 0; i < MAXPEND; i++) if (pend[i].used && pend[i].due <= sim_now &&
+        (best < 0 || pend[i].due < pend[best].due || (pend[i].due == pend[best].due && pend[i].id < pend[best].id))) best = i;
     if (best < 0) break;
     pend[best].used = 0;
     cur_side = 1;
@@ -255,7 +257,7 @@ static void step(char *line) {
   int n = h_words(line, w, 12);
   if (!parse_line(w, n)) { printf("bad-op"); return; }
   sim_reset();
-  nfly = 0; nanswered = 0; srv_mid_set = 0; cur_req = -1;
+  nfly = 0; nanswered = 0; srv_mid_set = 0; cur_req = -1; pend_ids = 0;
   memset(pend, 0, sizeof(pend));
   sim_tx_hook = x_tx_hook;
   sim_tx_logger = x_tx_logger;
